@@ -14,6 +14,21 @@ NOT_APPLICABLE = {
 }
 
 CHECKS = {
+    "C01": dict(
+        text="The documented BaseStorage contract is a TLA+ specification (Storage.tla: every call as a pure operator, "
+             "invariants NumbersAreOrdinal/TrialsPartition/NamesUnique, action properties FinishedIsFrozen, RunningOnce, "
+             "OverwriteByKey, TemplateFieldForField, DeletedIsGone, NeverReissued) model-checked exhaustively on a bounded "
+             "instance; TLC-simulated and seeded random call histories are executed on nine real backend configurations "
+             "(in-memory, SQLite RDB, cached RDB, journal file with both locks, journal fakeredis, gRPC proxy over "
+             "in-memory/RDB/journal) and TLC validates every recorded trace: each reply, each error class and the full "
+             "read-back state after every call must be a step of the contract.",
+        note="Trusted: TLC, the projection of storage objects to tokens (bit-exact float pool, JSON-normalised attrs, "
+             "creation-order ids with raw-id freshness decided in the spec). RDB = SQLite, Redis = fakeredis. Calls the "
+             "contract leaves undefined (D2, D10, mixed incompatible templates) are not generated. Known findings K2, K6.",
+        technique="TLA+ contract spec model-checked with TLC; TLC-generated and random histories replayed on 9 backends; "
+                  "recorded traces validated by TLC (trace validation)",
+        ref="DESIGN.md section 4 C01, section 3.1",
+    ),
     "C15": dict(
         text="TLC decides every answer of the real kernels: hypervolume = number of dominated lattice cells, rank = "
              "peeling (plain/constrained, n_below contract), HSSP answer within (1-1/e) of the exhaustive best subset. "
